@@ -19,7 +19,9 @@ def gate(ctx, rule, fa, node, guard, what, assume=(), key=None, await_kills=Fals
 
 def atomic_facts_at(fa, node, assume=()):
     """atomic (non whole-test) facts that hold at node, as {(term, pol)} in raw and expanded vocabulary"""
-    F = fa.facts(assume)
+    # facts established by TESTS on the way (a constant assignment `x = True` is not a condition under which the node runs);
+    # reachability is still judged with the full analysis (fa.reachable)
+    F = fa.facts(assume, tests_only=True)
     out = None
     for n in fa.cfg_nodes(node):
         have = F.at(n)
@@ -32,8 +34,6 @@ def atomic_facts_at(fa, node, assume=()):
                 continue
             if k[0].startswith(("and[", "or[", "ite[")):
                 continue
-            if getattr(fi.origin, "kind", "") == "stmt":
-                continue            # established by a constant assignment, not by a test
             cur.add(k)
         out = cur if out is None else out & cur
     return out or set(), F
